@@ -511,6 +511,17 @@ pub fn stream_cfgs(tier: &str) -> Vec<(StreamCfg, Bounds)> {
         if q { 1 } else { 2 },
         0,
     );
+    add(
+        "w[4,4,4] 60 ms apart, accept 400 ms late, read_exact(12)",
+        &|c| {
+            c.writes = vec![4, 4, 4];
+            c.gap_ms = 60;
+            c.accept_delay_ms = 400;
+            c.read_size = 12;
+        },
+        1,
+        0,
+    );
     if !q {
         add(
             "w[3000] read_exact(4096) mtu1500, frame faults",
